@@ -516,7 +516,10 @@ impl<'a> From<OutputEvent> for Event<'a> {
             OutputEvent::Start(e) => Event::Start(e.into_bytesstart()),
             OutputEvent::Comment(t) => Event::Comment(BytesText::from_escaped(t)),
             OutputEvent::Text(t) => Event::Text(BytesText::new(&t).into_owned()),
-            OutputEvent::CData(t) => Event::CData(BytesCData::new(t)),
+            // a literal `]]>` would end the section early: split it across two
+            OutputEvent::CData(t) => {
+                Event::CData(BytesCData::new(t.replace("]]>", "]]]]><![CDATA[>")))
+            }
             OutputEvent::End(name) => Event::End(BytesEnd::new(name)),
             OutputEvent::Other(e) => e,
         }
